@@ -41,6 +41,7 @@ inductive V where
   | nil                               -- the empty list / tuple
   | cons (hd tl : V)                  -- a non-empty list / tuple of any length (`tl` is `nil` or `cons`)
   | dict (entries : V)                -- a dict: list of `tup2 key value` in insertion order, keys distinct
+  | ellipsis                          -- the `Ellipsis` singleton
   deriving Repr, DecidableEq, Inhabited
 
 /-- outcome of one pass through a translated loop body: an early `return v`, or the next loop state -/
@@ -68,6 +69,7 @@ def pyEq : V → V → Bool
   | .nil, .nil => true
   | .cons a b, .cons a' b' => pyEq a a' && pyEq b b'
   | .dict a, .dict b => pyEq a b      -- (order-sensitive: enough for the fragment, which never compares dicts)
+  | .ellipsis, .ellipsis => true
   | _, _ => false
 
 def eq (a b : V) : M V := pure (.bool (pyEq a b))
@@ -87,10 +89,15 @@ def truthy : V → M Bool
   | .cons .. => pure true
   | .dict .nil => pure false
   | .dict _ => pure true
+  | .ellipsis => pure true
 
 def not_ (a : V) : M V := do pure (.bool (!(← truthy a)))
 
 def isNone : V → Bool | .none => true | _ => false
+/-- `isinstance(x, tuple)` / list: a sequence value -/
+def isSeq : V → Bool | .nil => true | .cons .. => true | .tup2 .. => true | .tup3 .. => true | _ => false
+/-- `isinstance(x, slice)` -/
+def isSlice : V → Bool | .slice .. => true | _ => false
 /-- `isinstance(x, numbers.Integral)` (bool is not produced as an index by the fragment) -/
 def isIntegral : V → Bool | .int _ => true | _ => false
 
@@ -100,8 +107,15 @@ def add : V → V → M V
 def sub : V → V → M V
   | .int a, .int b => pure (.int (a - b))
   | _, _ => throw .typeError
+/-- `(a,) * n`: `n` copies of `a` -/
+def replicateV (a : V) : Nat → V
+  | 0 => .nil
+  | k + 1 => .cons a (replicateV a k)
+
 def mul : V → V → M V
   | .int a, .int b => pure (.int (a * b))
+  | .cons a .nil, .int n => pure (replicateV a n.toNat)   -- one-element tuple/list times int (none for n ≤ 0)
+  | .nil, .int _ => pure .nil
   | _, _ => throw .typeError
 def neg : V → M V
   | .int a => pure (.int (-a))
@@ -309,6 +323,41 @@ def revAux : V → V → M V
 
 /-- `x[::-1]` -/
 def reversed (x : V) : M V := do revAux (← asList x) .nil
+
+def dropNat : V → Nat → V
+  | x, 0 => x
+  | .cons _ xs, k + 1 => dropNat xs k
+  | x, _ + 1 => match x with | .nil => .nil | _ => x
+
+/-- `x[k:]` for a list and an int `k ≥ 0` -/
+def dropFrom (x k : V) : M V := do
+  match ← asList x, k with
+  | l, .int i => if 0 ≤ i then pure (dropNat l i.toNat) else throw .unsupported
+  | _, _ => throw .typeError
+
+/-- `v in xs` for a list -/
+def contains : V → V → M Bool
+  | .nil, _ => pure false
+  | .cons a rest, v => if pyEq a v then pure true else contains rest v
+  | .tup2 a b, v => pure (pyEq a v || pyEq b v)
+  | .tup3 a b c, v => pure (pyEq a v || pyEq b v || pyEq c v)
+  | _, _ => throw .typeError
+
+def enumAux : V → Int → M V
+  | .nil, _ => pure .nil
+  | .cons a rest, i => do pure (.cons (.tup2 (.int i) a) (← enumAux rest (i + 1)))
+  | _, _ => throw .typeError
+
+/-- `enumerate(xs)` as a list of pairs -/
+def enumerate (xs : V) : M V := do enumAux (← asList xs) 0
+
+/-- `needle in hay` for strings (substring test) -/
+def strIn (needle hay : String) : Bool := needle.isEmpty || decide ((hay.splitOn needle).length ≥ 2)
+
+/-- `x in 'CF'` for a value `x` (a string: substring test; anything else: TypeError) -/
+def strInV : V → String → M Bool
+  | .str s, hay => pure (strIn s hay)
+  | _, _ => throw .typeError
 
 /-- `range(a, b, c)` as a list -/
 def pyRange : V → V → V → M V
